@@ -96,8 +96,8 @@ def p_label_as_index_offset(lines, desc, obs):
         return form0(desc) in ("idxv", "iidxv")
     labels, _ = symbol_kinds(lines)
     for lb, mn, op in statements(lines):
-        m = re.match(r"^\[?([A-Za-z0-9@]+)([+\-*/][$\w]+)?,([^\]]*)\]?$", op)
-        if m and m.group(1) in labels and "PCR" not in m.group(3):
+        m = re.match(r"^\[?([$%]*\w+)(?:[+\-*/]([$%]*\w+))?,([^\]]*)\]?$", op)
+        if m and (m.group(1) in labels or m.group(2) in labels) and "PCR" not in m.group(3):
             return True
     return False
 
@@ -326,7 +326,14 @@ PREDICATES["address_expression_below_zero"] = p_address_expression_below_zero
 
 
 def p_symbol_in_data(lines, desc, obs):
-    return desc.get("kind") == "data" and bool(desc.get("has_symbol"))
+    if desc.get("kind") == "data":
+        return bool(desc.get("has_symbol"))
+    labels, equs = symbol_kinds(lines)
+    for lb, mn, op in statements(lines):
+        if mn in ("FCB", "FDB") and (any(t in labels or t in equs for t in re.split(r"[,+\-*/]", op))
+                                     or re.match(r"^[$%]*\w+[+\-*/][$%]*\w+$", op)):
+            return True
+    return False
 
 
 def p_data_value_width(lines, desc, obs):
@@ -352,3 +359,23 @@ def c04_key(desc):
     small = all(t[0] == "label" or t[-1] < 256 for t in terms)
     res = "divzero" if desc.get("divzero") else ("mayreject" if desc.get("may_reject") else "inrange")
     return "|".join([desc.get("pos", ""), ",".join(desc.get("kinds", ())), desc.get("op") or "", sp, "small" if small else "big", res])
+
+
+def p_expr_valued_equ(lines, desc, obs):
+    """the program has an EQU whose operand is not a plain numeric literal"""
+    for lb, mn, op in statements(lines):
+        if mn == "EQU" and literal(op) is None:
+            return True
+    return False
+
+
+def p_indirect_label_expr(lines, desc, obs):
+    labels, _ = symbol_kinds(lines)
+    for lb, mn, op in statements(lines):
+        m = re.match(r"^\[([$%]*\w+)[+\-*/]([$%]*\w+)\]$", op)
+        if m and (m.group(1) in labels or m.group(2) in labels):
+            return True
+    return False
+
+
+PREDICATES.update({"expr_valued_equ": p_expr_valued_equ, "indirect_label_expr": p_indirect_label_expr})
